@@ -104,6 +104,8 @@ def h_namelut(ctx):
             body += enc.enc_int(d, 4, little) + list(nm.encode('utf-8')) + [0]
             want.append((nm, cu_off, cu_off + d))
         body += [0, 0, 0, 0]
+        # producers may pad a set after its terminator (unit_length covers the padding): the next set starts where unit_length says
+        body += [0xAA] * (cfg.get('slack') or [0] * (s + 1))[s]
         rest = enc.enc_int(ver, 2, little) + enc.enc_int(cu_off, 4, little) + enc.enc_int(cu_len, 4, little)
         ul = len(rest) + len(body)
         sec += enc.enc_int(ul, 4, little) + rest + body
@@ -203,8 +205,10 @@ HARNESSES = [
     H('h13_1_aranges_absent', h_aranges_absent, lambda tier: [dict()], expect=('ok',), desc='no .debug_aranges section'),
     H('h13_2_namelut', h_namelut,
       lambda tier: [dict(little=l, which=w, sets=s, order=o) for l in (True, False) for w in ('debug_pubnames', 'debug_pubtypes') for s in ([0], [2], [1, 2], [0, 1])
-                    for o in ('entries-first', 'headers-first')], expect=('ok',),
-      desc='NameLUT over generated .debug_pubnames/.debug_pubtypes (1-2 sets x 0-2 names incl. non-ASCII, offsets symbolic): name -> (unit offset, unit offset + die offset), order, set headers, mapping interface'),
+                    for o in ('entries-first', 'headers-first')] +
+                   [dict(little=l, which=w, sets=s, order=o, slack=k) for l in (True, False) for w in ('debug_pubnames', 'debug_pubtypes')
+                    for s, k in (([1, 2], [4, 0]), ([1, 1, 1], [3, 1, 2]), ([0, 1], [8, 0])) for o in ('entries-first', 'headers-first')], expect=('ok',),
+      desc='NameLUT over generated .debug_pubnames/.debug_pubtypes (1-3 sets x 0-2 names incl. non-ASCII, offsets symbolic, optional padding between the terminator of a set and the end declared by unit_length): name -> (unit offset, unit offset + die offset), order, set headers, mapping interface'),
     H('h13_2_namelut_absent', h_namelut_absent, lambda tier: [dict()], expect=('ok',), desc='absent / empty name tables'),
     H('h13_3_cu_lookup', h_cu_lookup, _lookup_instances, expect=('ok', 'outside'),
       desc='get_CU_containing(refaddr) with refaddr symbolic over the whole section (and beyond) and get_CU_at(offset) with the offset symbolic over the unit starts, '
